@@ -85,6 +85,23 @@ pub fn h_clone_view<K: Shape, V: Shape, const N: usize>() {
     kani::cover!(pre.len > 0 || N == 0, "reached");
 }
 
+/// `clone_from` (the defaulted method of Clone) must behave like `*dst = src.clone()`
+pub fn h_clone_from<K: Shape, V: Shape, const N: usize>() {
+    let m: Map<K, V, N> = any_map();
+    let pre = model(&m);
+    let mut d: Map<K, V, N> = any_map();
+    d.clone_from(&m);
+    let md = model(&d);
+    let q: K = kani::any();
+    assert!(md.len == pre.len && md.wf() && same_opt_pair(&md.get(&q), &pre.get(&q)), "C15.clone_from: the destination holds exactly the source's entries afterwards");
+    assert!(d == m && model(&m).same(&pre), "C15.clone_from: equal to the source, source untouched");
+    let mut s: Set<K, N> = any_set();
+    let src: Set<K, N> = any_set();
+    s.clone_from(&src);
+    assert!(s == src && smodel(&s).wf() && s.len() == src.len(), "C15.Set::clone_from: equal to the source");
+    kani::cover!(pre.len > 0 || N == 0, "reached");
+}
+
 pub fn h_set_clone_view<T: Shape, const N: usize>() {
     let s: Set<T, N> = any_set();
     let pre = smodel(&s);
